@@ -111,7 +111,7 @@ def evaluate(c, d, cont, spec, label=""):
         w = tuple(np.argwhere(extra)[0])
         raise Violation(label + "candidate-above-cut", f"tuple {w} disorder {costs[w]} > {thr} returned (T={len(tuples)})")
     ref = costs[idx]
-    bad = np.abs(disorders - ref) > oracle.REL_TOL * np.maximum(1.0, np.abs(ref))
+    bad = np.abs(disorders - ref) > oracle.REL_TOL * np.maximum(float(spec["delta"]), np.abs(ref))
     if bad.any():
         k = int(np.argmax(bad))
         raise Violation(label + "candidate-disorder-mismatch", f"tuple {tuple(tuples[k])}: carried {disorders[k]} reference {ref[k]}")
@@ -140,7 +140,7 @@ def evaluate(c, d, cont, spec, label=""):
 
 @st.composite
 def small_cases(draw):
-    return draw(gen.continuum_and_spec(min_ann=2, max_ann=5, budget=6000, max_per=14, unlabelled_ratio=0.1))
+    return draw(gen.continuum_and_spec(min_ann=2, max_ann=5, budget=6000, max_per=14, unlabelled_ratio=0.1, extreme=True))
 
 
 @st.composite
